@@ -4,7 +4,11 @@ The isolation machinery is decided on what it DOES, not on how it is written: th
 result writers are evaluated (sa/concrete.py, sa/cint.py: tree-walking evaluators over the parsed source, nothing of the
 repository is imported or run) on a small family of mock networks / graphs and the observable effect -- the arrays handed to the
 search, the flags, the sets handed to the model update, the stored results -- is compared with an independent computation.
-The constraint builders are path-enumerated symbolically (sa/builders.py).
+The constraint builders are path-enumerated symbolically (sa/builders.py); their guards and rows are classified by regular
+expressions on the path-condition text (`_is_isolated`, `status == LinkStatus.Closed`, `m.flow[..]`), no formula is compared.
+In DESIGN 2b terms: R-C09-1 .. -4 are T3 (finite evaluation, bounded to the mock network and the fixture graphs) with a T1 CFG
+must-pass part in R-C09-1, a regex on the C signature in R-C09-2 and the T2 part of R-C09-4 just described; R-C09-5 is a T1
+presence / text match (an assignment to _user_status whose value text contains `initial_status`), nothing is evaluated.
 """
 import ast
 import collections
@@ -28,19 +32,21 @@ CPP = "wntr/sim/network_isolation/network_isolation.cpp"
 BASE = "wntr/network/base.py"
 
 EXPLANATION = (
-    "Evaluation of the isolation machinery on mock networks (single links, parallel links drawn the same and the opposite way, pipes / pumps / "
-    "valves, Closed / Open / Active, stale flags, an unlinked last node) through three rounds of status changes: (R-C09-1) the arrays handed to the "
-    "search encode a node pair as connected (entry 1, both directions) iff any link joining it is not Closed, whatever else is true of the links, "
-    "with one row per node, row lengths in num_connections and all tanks and reservoirs as sources, after initialisation and after every update; the "
-    "update consumes and resets its change-tracker reference point; run_sim refreshes the graph before every search and searches before every solve; "
-    "(R-C09-2) the C++ search, evaluated on families of graphs, marks exactly the nodes an independent search reaches through entries equal to 1; the "
-    "Python caller hands over an all-ones indicator and the arrays in the order of the C signature; (R-C09-3) _get_isolated_junctions_and_links leaves "
-    "exactly the indicator-1 junctions and all their links flagged (older flags cleared), hands (previous sets, new sets) to the model update and "
-    "remembers the new sets; the model update rebuilds exactly the symmetric difference through '_is_isolated'; (R-C09-4) store_results_in_network "
-    "and save_results report 0 demand / pressure / leak and the elevation as head for an isolated junction and 0 flow for an isolated link in every "
-    "demand mode and leak state, never zero a connected one, and every constraint builder gives the q = 0 row to a Closed-or-isolated link, builds no "
-    "balance / PDD / leak row for an isolated junction and re-registers on _is_isolated. Decided on the finite families evaluated; reachability on all "
-    "graphs is not decided.")
+    "T3, finite evaluation: the simulator methods and result writers are interpreted by sa/concrete.py and the C++ search by sa/cint.py on mock "
+    "networks / graphs (one 13-node, 18-link network with parallel links, pipes / pumps / valves, Closed / Open / Active, stale flags, an unlinked "
+    "node; three rounds of status changes; about 150 fixture graphs). Bounded to these families. R-C09-1: the arrays handed to the search encode a "
+    "node pair as connected (entry 1, both directions) iff a link joining it is not Closed, one row per node, all tanks and reservoirs as sources, "
+    "after initialisation and every update; the update resets its change-tracker reference point; (T1, CFG must-pass) run_sim refreshes the graph "
+    "before every search and searches before every solve. R-C09-6 (T1, CFG must-pass, through helper methods that rebuild on every path): on every path "
+    "from the entry of run_sim to its first update / search the graph is rebuilt in full and the reference point the update reads is set after the "
+    "rebuild; (T3) a rebuild on the used simulator after statuses were changed outside any run hands over arrays that match the network again. R-C09-2: the C++ search marks exactly the nodes an independent search reaches through "
+    "entries equal to 1; the caller hands over an all-ones indicator and well-formed arrays (C signature read by regex). R-C09-3: "
+    "_get_isolated_junctions_and_links flags exactly the unreached junctions and their links, hands (previous, new) sets to the model update, which "
+    "rebuilds the symmetric difference. R-C09-4: store_results_in_network / save_results report 0 demand / pressure / leak, elevation as head and 0 "
+    "flow for isolated elements in 6 mock runs and never zero a connected one; (T2, symbolic path enumeration with guards classified by regex on "
+    "their text) every constraint builder gives the q = 0 row to a Closed-or-isolated link and no balance / PDD / leak row to an isolated junction. "
+    "R-C09-5 (T1 presence / text match): add_pipe, add_pump and add_valve contain an assignment to _user_status whose value text mentions "
+    "initial_status. Reachability on all graphs is not decided.")
 RULE_TEXT = ("one instance = one semantic fact of one evaluated scenario step (graph encoding per kind of node pair, search result per graph family, flag / set "
              "state per search round, reported quantity, constraint builder); distinct = distinct constructs")
 ASSUMPTIONS = [
@@ -452,6 +458,9 @@ class _Registry(object):
         return list(self._items.items())
 
 
+_OPTION_DEFAULTS = {}      # filled by run() from wntr/network/options.py
+
+
 class _NS(object):
     _sa_mock = True
 
@@ -483,9 +492,12 @@ class MockWN(object):
         self.name = "mock"
         self.sim_time = 0
         self._prev_sim_time = None
-        self.options = _NS(hydraulic=_NS(demand_model=demand_model, trials=200, headloss="H-W", minimum_pressure=0.0, required_pressure=0.07, pressure_exponent=0.5,
-                                         inpfile_units="LPS", accuracy=0.001, demand_multiplier=1.0, emitter_exponent=0.5, viscosity=1.0, specific_gravity=1.0),
-                           time=_NS(duration=0, hydraulic_timestep=3600, report_timestep=3600, rule_timestep=360, pattern_timestep=3600, start_clocktime=0))
+        hyd = dict(_OPTION_DEFAULTS.get("HydraulicOptions", {}))
+        hyd.update(demand_model=demand_model, trials=200, headloss="H-W", minimum_pressure=0.0, required_pressure=0.07, pressure_exponent=0.5,
+                   inpfile_units="LPS", accuracy=0.001, demand_multiplier=1.0, emitter_exponent=0.5, viscosity=1.0, specific_gravity=1.0)
+        tim = dict(_OPTION_DEFAULTS.get("TimeOptions", {}))      # every field of the real options group (source defaults), then the scenario's values
+        tim.update(duration=0, hydraulic_timestep=3600, report_timestep=3600, rule_timestep=360, pattern_timestep=3600, start_clocktime=0)
+        self.options = _NS(hydraulic=_NS(**hyd), time=_NS(**tim))
         for nm, cls in _NODE_KINDS.items():
             self._add_kind(nm, cls, self.nodes)
         for nm, cls in _LINK_KINDS.items():
@@ -673,6 +685,8 @@ ROUNDS = [
     [("PU1", "Open", 0), ("P1", "Closed", 1), ("P5", "Closed", 0), ("P4", "Open", 0), ("V1", "Closed", 1), ("P7", "Open", 0), ("V2", "Active", 0), ("P3", "Closed", 0)],
     [("P1", "Open", 0), ("PU1", "Closed", 1), ("V1", "Active", 0), ("P11", "Open", 0), ("P13", "Closed", 0), ("V2", "Closed", 1), ("P3", "Open", 0)],
 ]
+#  statuses found by a second run on the same simulator: the definition state again, plus edits made while paused
+RESET_EDITS = [("P2", "Open", 0), ("P1", "Closed", 0), ("P6", "Open", 0), ("V1", "Closed", 0), ("P9", "Closed", 1), ("P10", "Open", 0)]
 OTHER_CHANGES = [("V1", "setting"), ("J1", "leak_status"), ("T1", "leak_status"), ("PU2", "base_speed")]
 
 
@@ -903,6 +917,9 @@ def closed_forced(conds):
 
 # ================================================================================================ the rules
 def run(repo, chk):
+    from ._shared import options_class_defaults
+    for _c in ("TimeOptions", "HydraulicOptions"):
+        _OPTION_DEFAULTS[_c] = options_class_defaults(repo, _c)
     sim_cls = repo.cls(CORE, "WNTRSimulator")
     meths = {n.name: n for n in sim_cls.body if isinstance(n, ast.FunctionDef)}
     for n in meths.values():
@@ -966,16 +983,29 @@ def run(repo, chk):
             raise ExtractError("WNTRSimulator: expected exactly one ControlChangeTracker attribute after construction, found %d" % len(trackers))
         tracker = trackers[0]
         prev = ([], [])
-        steps = ["initialisation", "update after round 1 of status changes", "update after round 2 of status changes"]
+        steps = ["initialisation", "update after round 1 of status changes", "update after round 2 of status changes",
+                 "rebuild on the used simulator after statuses were changed outside any run"]
         for step, what in enumerate(steps):
             tag = "%s, %s" % (label, what)
             fails = None
+            rule_g = "R-C09-6" if step == 3 else "R-C09-1"
             try:
                 if step == 0:
                     where = "_initialize_internal_graph"
                     it.getattr_(sim, "_initialize_internal_graph")()
                     for k in ("graph", "model"):
                         tracker.set_reference_point(k)
+                elif step == 3:
+                    # what run_sim finds when the simulator object is used again (reset_initial_values, an edit while paused): the statuses differ
+                    # from those the graph was left with and no control action told the change tracker
+                    for lk, kind, a_, b_, st, variant in LINKS:
+                        wn.get_link(lk).set_effective(getattr(LS, st), variant)
+                    for lk, st, variant in RESET_EDITS:
+                        wn.get_link(lk).set_effective(getattr(LS, st), variant)
+                    where = "_initialize_internal_graph"
+                    it.getattr_(sim, "_initialize_internal_graph")()
+                    for k in ("graph", "model"):
+                        tracker.reset_reference_point(k)
                 else:
                     for lk, st, variant in ROUNDS[step - 1]:
                         l = wn.get_link(lk)
@@ -998,7 +1028,7 @@ def run(repo, chk):
                 it.getattr_(sim, "_get_isolated_junctions_and_links")()
             except ProgramError as e:
                 fails = "%s raises %s at line %s" % (where, e, e.lineno)
-            rule = "R-C09-3" if where == "_get_isolated_junctions_and_links" and fails else "R-C09-1"
+            rule = "R-C09-3" if where == "_get_isolated_junctions_and_links" and fails else rule_g
             if fails:
                 chk.bad(rule, "[%s] %s runs on the scenario network" % (tag, where), loc(meths[where]) if where in meths else CORE,
                         "the scenario has parallel links in both orientations, closed links, pumps, valves, an unlinked junction as last node, and changes of "
@@ -1027,7 +1057,7 @@ def run(repo, chk):
                      ("sources", "the sources of the search are all tanks and all reservoirs"),
                      ("spurious", "only node pairs joined by a link are connected")]
             for cat, text in texts:
-                chk.expect(not gf[cat], "R-C09-1", "[%s] %s" % (tag, text), loc(ig if step == 0 else ug),
+                chk.expect(not gf[cat], rule_g, "[%s] %s" % (tag, text), loc(ig if step in (0, 3) else ug),
                            "the search follows an entry iff it is 1: a non-closed link must give 1 whatever else is true of it (stale _is_isolated flag, initial_status, "
                            "_user_status/_internal_status representation), a closed one 0 unless a parallel link is open", found="; ".join(gf[cat][:4]) or None)
             # ---- flag life cycle, judged against the indicator the search left behind
@@ -1062,7 +1092,7 @@ def run(repo, chk):
             # ---- the scenario itself must exercise isolation and reconnection (guards the harness)
             ej, el = expected_isolated(wn)
             if not gf["single"] and not gf["same"] and not gf["opposite"] and not gf["rows"] and not gf["sources"] and not gf["spurious"]:
-                chk.expect(sorted(ej) == sorted(exp_j), "R-C09-1", "[%s] the junctions the search leaves unreached are exactly those without a path of non-closed links to a source" % tag,
+                chk.expect(sorted(ej) == sorted(exp_j), rule_g, "[%s] the junctions the search leaves unreached are exactly those without a path of non-closed links to a source" % tag,
                            loc(gi), expected=sorted(ej), found=sorted(exp_j))
 
     scenario("network with stale flags", True, True)
@@ -1090,6 +1120,62 @@ def run(repo, chk):
     conts = g.nodes_where(lambda node, d: isinstance(node, ast.Continue))
     chk.expect(bool(post) and bool(conts), "R-C09-1", "re-solve path exists (post-solve controls, continue)", loc(rs))
     chk.floor("R-C09-1", 12)
+
+    # ---------------------------------------------------------------- R-C09-6 every run_sim call searches a graph that reflects the CURRENT statuses
+    # (T1, CFG must-pass.)  The update only applies what the change tracker saw since the reference point that run_sim itself sets; statuses changed
+    # between two runs on the same simulator object (reset_initial_values, an edit while paused) are invisible to it.  So on EVERY path from the entry of
+    # run_sim to the first update / search the graph must be rebuilt in full from the current statuses, and the reference point the update reads must be
+    # set after that rebuild.  (That a rebuild on a used simulator really reflects the current statuses is the T3 step 4 of the scenarios above.)
+    _always = {}
+
+    def always_rebuilds(name, depth=0):
+        """does every path through method `name` to its normal exit call _initialize_internal_graph (directly or through such a method)?"""
+        if name == "_initialize_internal_graph":
+            return True
+        if name in _always:
+            return _always[name]
+        _always[name] = False          # recursion guard
+        fn = meths.get(name)
+        if fn is None or depth > 4 or name == "run_sim":
+            return False
+        cg = CFG(fn)
+        via = rebuild_nodes(cg, depth + 1)
+        ok, _w = cg.must_pass(cg.entry, [cg.exit], via)
+        _always[name] = bool(via) and ok
+        return _always[name]
+
+    def rebuild_nodes(cg, depth=0):
+        def pred(node, d):
+            for c in walk(node):
+                if isinstance(c, ast.Call) and isinstance(c.func, ast.Attribute) and isinstance(c.func.value, ast.Name) and c.func.value.id in ("self", "cls", sim_cls.name) \
+                        and c.func.attr in meths and always_rebuilds(c.func.attr, depth):
+                    return True
+            return False
+        return cg.nodes_where(pred)
+    rebuilds = rebuild_nodes(g)
+    consumers = sorted(set(upds) | set(isos))
+
+    def sets_key(node, d):
+        for c in walk(node):
+            if isinstance(c, ast.Call) and last_attr(c) == "set_reference_point":
+                k = const(c.args[0]) if c.args else (const(c.keywords[0].value) if c.keywords else None)
+                if k in used_keys:
+                    return True
+        return False
+    setrefs = g.nodes_where(sets_key)
+    ok6, w = g.must_pass(g.entry, consumers, rebuilds)
+    chk.expect(bool(rebuilds) and bool(consumers) and ok6, "R-C09-6", "every call of run_sim rebuilds the connectivity graph from the current statuses before its first update / isolation search",
+               loc(rs), "the graph update only applies the status changes the change tracker saw since run_sim set its reference point: a graph kept from an earlier run on the same "
+               "simulator object (reset_initial_values, an edit while paused) keeps stale 0/1 entries, a connected junction is zeroed or a cut-off one is solved",
+               expected="_initialize_internal_graph on every path from the entry to the first _update_internal_graph / _get_isolated_junctions_and_links",
+               found=("path without a rebuild: " + g.path_text(w)) if w else ("no rebuild call in run_sim" if not rebuilds else None))
+    ok6b, w = g.must_pass(g.entry, consumers, setrefs)
+    chk.expect(bool(setrefs) and ok6b, "R-C09-6", "every call of run_sim sets the reference point the graph update reads before its first update", loc(rs),
+               found=("path: " + g.path_text(w)) if w else "set_reference_point(%s) not found in run_sim" % sorted(str(k) for k in used_keys))
+    ok6c, w = g.must_pass(g.entry, setrefs, rebuilds)
+    chk.expect(bool(setrefs) and bool(rebuilds) and ok6c, "R-C09-6", "the reference point the graph update reads is set after the rebuild (the rebuilt graph and the reference statuses are the same state)",
+               loc(rs), found=("path: " + g.path_text(w)) if w else None)
+    chk.floor("R-C09-6", 3 + 12)
 
     # ---------------------------------------------------------------- R-C09-2 the C++ search against an independent search
     ci = CInterp(repo.source(CPP))
@@ -1339,6 +1425,7 @@ def run(repo, chk):
 
     # ---------------------------------------------------------------- R-C09-5 a link created closed is closed in the first solve
     # the graph (and every status rule) reads link.status, which follows _user_status: all three add_* siblings must start it from initial_status
+    # (presence / text match: an Assign to attribute _user_status whose unparsed value, after substituting single-definition locals, contains 'initial_status')
     MODEL = "wntr/network/model.py"
     for meth in ("add_pipe", "add_pump", "add_valve"):
         fn = repo.func(MODEL, "LinkRegistry." + meth)
@@ -1451,4 +1538,21 @@ WITNESSES = [
              "        self._prev_isolated_junctions, self._prev_isolated_links = isolated_junctions, isolated_links\n"
              "        wntr.sim.hydraulics.update_model_for_isolated_junctions_and_links(self._model, self._wn, model_updater=self._model_updater,\n"
              "                                                                          isolated_links=isolated_links, isolated_junctions=isolated_junctions, **previous)\n"),
+    dict(name="graph-built-once-per-simulator", file=CORE, rule="R-C09-6",
+         old="        self._initialize_internal_graph()\n        self._change_tracker.set_reference_point('graph')\n",
+         new="        if self._internal_graph is None:\n            self._initialize_internal_graph()\n        self._change_tracker.set_reference_point('graph')\n"),
+    dict(name="rebuild-skips-when-graph-exists", file=CORE, rule="R-C09-6",
+         old="    def _initialize_internal_graph(self):\n        n_links = OrderedDict()\n",
+         new="    def _initialize_internal_graph(self):\n        if self._internal_graph is not None:\n            return\n        n_links = OrderedDict()\n"),
+    dict(name="quiet-rebuild-in-helper-called-unconditionally", file=CORE, silent=True,
+         old="        self._initialize_internal_graph()\n        self._change_tracker.set_reference_point('graph')\n",
+         new="        self._prepare_isolation_search()\n",
+         also=[("    def _initialize_internal_graph(self):\n",
+                "    def _prepare_isolation_search(self):\n        self._initialize_internal_graph()\n        self._change_tracker.set_reference_point('graph')\n\n    def _initialize_internal_graph(self):\n")]),
+    dict(name="quiet-rebuild-in-opaque-helper-and-both-branches", file=CORE, silent=True,
+         old="        self._initialize_internal_graph()\n        self._change_tracker.set_reference_point('graph')\n",
+         new="        if self._internal_graph is None:\n            self._rebuild_graph('first run')\n        else:\n            self._rebuild_graph('simulator used again')\n"
+             "        self._change_tracker.set_reference_point('graph')\n",
+         also=[("    def _initialize_internal_graph(self):\n",
+                "    def _rebuild_graph(self, *why):\n        logger.debug('building the isolation graph: %s', why)\n        self._initialize_internal_graph()\n\n    def _initialize_internal_graph(self):\n")]),
 ]
